@@ -253,6 +253,39 @@ theorem copy_walk_from_missing_roots_only_loses_content :
     snap.present (copyRunMissingRootsOnly ⟨[1], []⟩ [snap]) = false ∧ snap.present (copyRun ⟨[1], []⟩ [snap]) = true := by
   decide
 
+/-! ### copy when the destination fails to store something (seeded change C12-7) -/
+
+/-- (C1, write faults) Whatever writes the destination backend fails during a `copy` — any set of packs of either phase, whether
+or not a failed pack is the one flushed by `copier.finalize()`, the index file, a snapshot file —: if `copy` (as written: every step
+followed by `?`, the result of `finalize()` included) returns Ok, then every given snapshot is completely readable from the
+destination.  "copy returns Err, or the destination is complete" — for every destination and every fault pattern. -/
+theorem copy_ok_implies_complete (f : CopyFaults) (dst : Dest) (snaps : List STree) (d : Dest)
+    (h : copyRunFaulty true f dst snaps = some d) : ∀ s ∈ snaps, s.present d = true := by
+  rw [copyRunFaulty_checked_some h]
+  exact copy_restores_all dst snaps
+
+/-- … and a failed `copy` saves no snapshot (`none`), so nothing in the destination refers to a blob that was not stored; running the
+same `copy` again without a fault completes the destination from WHATEVER the failed run left behind (`left`: any subset of the
+blobs indexed, orphan packs do not matter) — `copy_restores_all` holds for every destination. -/
+theorem copy_retry_completes (left : Dest) (snaps : List STree) : ∀ s ∈ snaps, s.present (copyRun left snaps) = true :=
+  copy_restores_all left snaps
+
+/-- without faults the run is `copyRun`, whether or not `finalize()` is checked -/
+theorem copy_without_faults (c : Bool) (l1 l2 : Nat → Bool) (dst : Dest) (snaps : List STree) :
+    copyRunFaulty c ⟨fun _ => false, fun _ => false, l1, l2, false, false⟩ dst snaps = some (copyRun dst snaps) := by
+  simp [copyRunFaulty, copyPhase, copyRun, copyStep]
+
+/-- Why the result of `copier.finalize()` must not be dropped: snapshot = tree 1 with chunk 5, empty destination, the destination
+fails to store the (only, hence last) data pack.  As written `copy` returns an error and saves nothing; with the result of
+`finalize()` dropped (seeded change C12-7) it returns Ok with the snapshot saved and its chunk missing.  Replayed on the real code by
+the `H:fault` sweeps of `c12 copy` (every write of the destination failed in turn). -/
+theorem copy_dropped_finalize_error_saves_unreadable_snapshot :
+    let snap := STree.node 1 [5] []
+    let f : CopyFaults := ⟨fun _ => true, fun _ => false, fun _ => true, fun _ => true, false, false⟩
+    copyRunFaulty true f ⟨[], []⟩ [snap] = none ∧
+    (copyRunFaulty false f ⟨[], []⟩ [snap]).map snap.present = some false := by
+  decide
+
 /-- DESIGN §7 #7: snapshot 1 = {src → {d → f, g}} where file `g`'s chunk id equals the id of tree `d` (id 3). -/
 def collision : List CTree := [⟨1, [2], []⟩, ⟨2, [3], [3]⟩, ⟨3, [], [4]⟩]
 
